@@ -18,8 +18,8 @@ RULE = (
     "agree too; two jobs exist both as a directly created CsvPath and as a CsvPaths-managed run and must give the same lines, variables, verdict and counters; non-trivial = the history contains two different jobs; state = (job, position in history)"
 )
 BOUNDS = {
-    "quick": "33 jobs (three under non-default dialects, two on a file with blank records, two on a file whose header cells need non-idempotent cleaning): 33 fresh-process references + 16 warm-cache fresh processes; all 1,089 ordered pairs (fresh CsvPaths per job) + 256 ordered pairs of CsvPaths jobs on ONE shared instance + 1,000 triples over a 10-job subset; 5 direct-vs-managed twin pairs",
-    "thorough": "all pairs, all 35,937 triples, shared-instance triples, sequences of 4 over a 6-job subset, of 5 over 4 jobs, of 6 over 3 jobs",
+    "quick": "35 jobs (three under non-default dialects, two on a file with blank records, two on a file whose header cells need non-idempotent cleaning, two on a one-record file): 35 fresh-process references + 17 warm-cache fresh processes; all 1,225 ordered pairs (fresh CsvPaths per job) + 289 ordered pairs of CsvPaths jobs on ONE shared instance + 1,000 triples over a 10-job subset; 6 direct-vs-managed twin pairs",
+    "thorough": "all pairs, all 42,875 triples, shared-instance triples, sequences of 4 over a 6-job subset, of 5 over 4 jobs, of 6 over 3 jobs",
 }
 CHUNK = 20
 BUDGET = {"quick": 600, "thorough": 3400}
@@ -74,12 +74,15 @@ JOBS = [
     {"kind": "paths", "match": '[@t = total_lines() @c = count_lines() push("ln", line_number()) last() -> @l = line_number()]', "rows": HB},
     {"kind": "paths", "match": '[push("h", header_name(0)) push("h", header_name(1)) push("h", header_name(2)) @n = count_headers()]', "rows": HP},
     {"kind": "path", "match": '[push("h", header_name(0)) push("h", header_name(1)) push("h", header_name(2)) @n = count_headers()]', "rows": HP},
+    # a file of exactly ONE record: the last line number is 0 (a value a cache round trip must not lose)
+    {"kind": "paths", "match": '[last.nocontrib() -> @l = line_number() @t = total_lines() yes()]', "rows": [["h1", "h2"]]},
+    {"kind": "path", "match": '[last.nocontrib() -> @l = line_number() @t = total_lines() yes()]', "rows": [["h1", "h2"]]},
 ]
 PATHS_JOBS = [i for i, j in enumerate(JOBS) if j["kind"] == "paths"]
 SUB10 = [0, 1, 2, 3, 4, 5, 12, 14, 17, 19]
 SUB6 = [1, 2, 5, 14, 17, 21]
 
-TWINS = [(7, 20), (12, 14), (28, 26), (29, 30), (32, 31)]  # same csvpath and file: CsvPath created directly vs by a CsvPaths instance
+TWINS = [(7, 20), (12, 14), (28, 26), (29, 30), (32, 31), (34, 33)]  # same csvpath and file: CsvPath created directly vs by a CsvPaths instance
 
 REFS = {}
 WARM = {}
